@@ -516,8 +516,11 @@ def run(ctx):
         ctx.report_broken('correspondence', 'model/Center.v vs abel/tools/center.py (%d of %d cases disagree)'
                           % (len(bad), len(cases)), detail)
     ctx.assumptions += [
-        'theorems about whole-pixel centring are polymorphic in the pixel type (set_center_int); the order-1 theorems are '
-        'about the R instance of the two-tap interpolation model, the correspondence runs the Q instance on dyadic origins',
+        'theorems about whole-pixel centring are polymorphic in the pixel type (set_center_int); the order-1 theorems '
+        '(mass and first moments, exact) are about the R instance of the two-tap interpolation model lin2, the '
+        'correspondence runs the Q instance on dyadic origins (all binary64 operations exact)',
+        'dtype clause: integer images with a fractional origin are converted to float by the implementation (commit '
+        '64762f4); the model has no dtypes, the clause is evaluated by the search (mass / centroid on int32 / int64 images)',
         'orders 2..5 with a fractional origin (scipy spline prefilter) are not modelled: total intensity and centroid are '
         'only swept numerically with measured tolerances (mass 1e-4, centroid 1e-3 px at a 16-pixel empty margin)',
         'scipy.ndimage.shift(order=1, mode="constant") on the zero-padded array is modelled as linear interpolation of the '
